@@ -491,6 +491,9 @@ def check_C07(ctx):
         doms.append(b'b.' + nme[:-1])
         doms.append(b'b.' + nme + b'x')
         doms.append(nme + b'.' + b'zz-unlisted')
+    # last labels made of a reserved name or a table row glued to more characters by a hyphen: unlisted, whatever they start or end with
+    for r in [b'test', b'example', b'invalid', b'localhost', b'onion', b'com', b'org', b'museum', b'de', b'xn--p1ai']:
+        doms += [b'b.' + r + b'-1', b'b.' + r + b'-x', b'b.x-' + r, b'a.b.' + r + b'-' + r, b'b.' + r + b'--a']
     doms += [a[a.rfind(b'@') + 1:] for a in src_addrs(ctx) if a.startswith(b'a@') and b'[' not in a and a.count(b'@') == 1]
     orc = vlib.idn_oracle(doms)
     el = gens.e_lines([b'u@' + d for d in doms], orc, tlds=(1,))
